@@ -25,6 +25,15 @@ func TestVerifLicConc(t *testing.T) {
 	for _, i := range rng.Perm(len(all))[:14] {
 		files = append(files, all[i])
 	}
+	for _, f := range []string{"WTFPL.txt", "AGPL-3.0.txt"} {
+		has := false
+		for _, g := range files {
+			has = has || g == f
+		}
+		if !has {
+			files = append(files, f)
+		}
+	}
 	// one archive, loaded several times: the sequential reference runs on its own instance, and every concurrent round
 	// on a freshly loaded one, so that whatever an instance builds on first use is built by racing calls
 	var abuf bytes.Buffer
@@ -58,10 +67,24 @@ func TestVerifLicConc(t *testing.T) {
 	// texts for which there is no candidate at all (far shorter than every license, out of vocabulary): the calls that
 	// return the "nothing found" result must be as independent of each other as the others
 	qs = append(qs, "license", "this software is provided under the license", "zzqx vvkq", "permission is hereby granted")
-	for i, q := range qs { // sequential reference
-		rec.mm("lic", l, al, q, true, fmt.Sprintf("mm|%d", i), fmt.Sprintf("q%d", i))
-		rec.nm("lic", l, q, "", false, fmt.Sprintf("nm|%d", i), fmt.Sprintf("q%d", i))
+	// texts that are classified as a forbidden license but lack its mandatory phrase (such matches are discarded): whatever
+	// that decision needs is also first needed by racing calls
+	for _, f := range []string{"WTFPL.txt", "AGPL-3.0.txt"} {
+		ws := strings.Fields(lcRead(f))
+		for k := 5; k < len(ws); k += 23 {
+			ws[k] = "zzqx"
+		}
+		qs = append(qs, strings.Join(ws, " "), lcRead(f))
 	}
+	// the concurrent rounds come first -- the very first calls in this process race -- and the sequential run, on an
+	// instance of its own, afterwards; a result that differs from any earlier one for the same query is rejected
+	defer func() {
+		lref := load()
+		for i, q := range qs {
+			rec.mm("lic", lref, al, q, true, fmt.Sprintf("mm|%d", i), fmt.Sprintf("q%d", i))
+			rec.nm("lic", lref, q, "", false, fmt.Sprintf("nm|%d", i), fmt.Sprintf("q%d", i))
+		}
+	}()
 	for round := 0; round < 6; round++ {
 		l := load() // cold
 		var wg sync.WaitGroup
